@@ -245,69 +245,12 @@ def _install_freeze_wrapper():
     _FREEZE_WRAPPED = True
     orig = mastermod.Master._freeze_server
 
-    def _freeze_server(self, servername, apps=None):
+    def _freeze_server(self, servername, apps=None, *args, **kwargs):
         if _FREEZE_LOG is not None:
             _FREEZE_LOG.append((servername, list(apps or [])))
-        return orig(self, servername, apps)
+        return orig(self, servername, apps, *args, **kwargs)
 
     mastermod.Master._freeze_server = _freeze_server
-
-
-def _install_truth_wrappers():
-    global _WRAPPED
-    if _WRAPPED:
-        return
-    _WRAPPED = True
-    orig_create_server = loadermod.Loader.create_server
-    orig_load_app = loadermod.Loader.load_app
-    orig_load_allocations = loadermod.Loader.load_allocations
-
-    def load_allocations(self):
-        rc = orig_load_allocations(self)
-        if _TRUTH is not None:
-            _TRUTH.allocations = list(
-                self.backend.get_default(z.ALLOCATIONS, default={}) or [])
-        return rc
-
-    orig_conf = scheduler.Cell.configure_identity_group
-    orig_rm = scheduler.Cell.remove_identity_group
-
-    def create_server(self, servername, data):
-        if _TRUTH is not None:
-            _TRUTH.srv[servername] = dict(data)
-        return orig_create_server(self, servername, data)
-
-    def load_app(self, appname):
-        rc = orig_load_app(self, appname)
-        truth = _TRUTH
-        if truth is not None:
-            if appname in self.cell.apps:
-                if appname not in truth.apps:
-                    manifest = self.backend.get_default(
-                        z.path.scheduled(appname))
-                    if manifest:
-                        truth.apps[appname] = manifest
-                truth.app_alloc[appname] = truth.assign(appname)
-            else:
-                truth.apps.pop(appname, None)
-                truth.app_alloc.pop(appname, None)
-        return rc
-
-    def configure_identity_group(self, name, count):
-        if _TRUTH is not None:
-            _TRUTH.groups[name] = count
-        return orig_conf(self, name, count)
-
-    def remove_identity_group(self, name):
-        if _TRUTH is not None:
-            _TRUTH.groups.pop(name, None)
-        return orig_rm(self, name)
-
-    loadermod.Loader.create_server = create_server
-    loadermod.Loader.load_app = load_app
-    loadermod.Loader.load_allocations = load_allocations
-    scheduler.Cell.configure_identity_group = configure_identity_group
-    scheduler.Cell.remove_identity_group = remove_identity_group
 
 
 WATCHED = (z.SERVER_PRESENCE, z.SCHEDULED, z.EVENTS, z.BLACKEDOUT_SERVERS)
